@@ -7,6 +7,7 @@ from . import common as C
 from .c03 import MNS, build_mn, mn_names
 
 PROPERTY = "C02"
+BUDGET = {"quick": 230, "thorough": 1200}
 LEVEL = "model_checking"
 BOUNDS = {
     "quick": "connected BN / MarkovNetwork / FactorGraph / JunctionTree models <=4 variables, cards<=3; all entries symbolic and >0 on <=3-variable "
@@ -106,6 +107,19 @@ def scenarios(tier, seed):
                 k += 1
                 out.append(dict(family=f"bp/mn/seq", kind="mn", model=mname, nodes=nodes, card=card, op="seq", seq=seq, q=[q], ev={}, joint=True,
                                 states=C.STATE_STYLES[k % len(C.STATE_STYLES)], hashseed=k % nh, budget_s=50, scopes=scopes, amplify=True))
+    # a chordless 5-cycle: the junction tree depends on triangulation fill-ins (two symbolic factors, the rest fixed rationals)
+    cyc_nodes = ["A", "B", "C", "D", "E"]
+    cyc_scopes = [["A", "B"], ["B", "C"], ["C", "D"], ["D", "E"], ["E", "A"]]
+    for ci, ccard in enumerate([dict(A=2, B=2, C=2, D=2, E=2), dict(A=3, B=2, C=3, D=2, E=2), dict(A=5, B=4, C=3, D=2, E=3)]):
+        for symf in ([0, 2], [1, 4], [3, 0]) if ci < 2 else ([2], [3]):
+            fixed = [i for i in range(5) if i not in symf]
+            for op, q, ev in [("calibrate", None, {}), ("query", ["A"], {"C": 1}), ("query", ["D", "B"], {}), ("query", ["E"], {"B": 0})]:
+                k += 1
+                if tier == "quick" and ci >= 1 and op == "calibrate":
+                    continue
+                out.append(dict(family=f"bp/mn5/{op}", kind="mn", model="mcycle5", nodes=cyc_nodes, card=ccard, op=op, q=q, ev=ev, joint=True,
+                                states=C.STATE_STYLES[k % len(C.STATE_STYLES)], hashseed=k % nh, budget_s=50, amplify=False, scopes=cyc_scopes,
+                                fixed_factors=fixed, fixed_seed=k))
     for jname, (nodes, cliques, edges) in JTS.items():
         for card in C.card_options(nodes, tier)[:2]:
             add("jt", jname, nodes, card, dict(scopes=[list(c) for c in cliques], jt_edges=edges))
